@@ -201,6 +201,9 @@ def _obs_equal(a, b):
         return len(a[1]) == len(b[1]) and all(_obs_equal(x, y) for x, y in zip(a[1], b[1]))
     if a[0] == 'element':
         return _loose(a[1], b[1])
+    if isinstance(a[1], dict) and isinstance(b[1], dict) and a[1].get('k') == b[1].get('k') == 'Series' and a[1].get('name') != b[1].get('name'):
+        # a row / column taken out of the Quilt is named by its label (with the Bus label when labels are retained), as in the Frame
+        return False
     return canon.snap_values_eq(a[1], b[1], eq=_loose, check_dtype=False, check_name=False, check_cls=False)
 
 
@@ -468,7 +471,7 @@ def _apply_op(x, op, rng_state, is_batch):
     if op == 'shift':
         return x.shift(1, fill_value=0)
     if op == 'roll':
-        return x.roll(1)
+        return x.roll(a['roll'][0], a['roll'][1], include_index=a['roll'][2], include_columns=a['roll'][3])
     raise KeyError(op)
 
 
@@ -486,6 +489,7 @@ def _check_batch(case, ctx, tmp):
     args = []
     for op in case['ops']:
         a = {'axis': rng.choice([0, 1]), 'skipna': rng.random() < 0.6, 'asc': rng.random() < 0.5, 'n': rng.randint(1, 3),
+             'roll': (rng.choice([1, 1, 0, 2]), rng.choice([0, 0, 1]), rng.random() < 0.4, rng.random() < 0.4),
              'v': rng.choice([0, 1, 'a', True]), 'r': slice(0, rng.randint(1, 2)), 'c': slice(0, rng.randint(1, 2)),
              'col': None, 'cols': None}
         args.append(a)
